@@ -11,7 +11,7 @@
 From Coq Require Import String.
 From Coq Require Import ZArith List Bool.
 From CanVerif Require Dbc.Ast.
-From CanVerif Require Import Can.Data Descriptor.Types Descriptor.Physical Gen.Message Gen.History Gen.HistoryPhys Gen.Api.
+From CanVerif Require Import Base.Dec Gen.RenderNum Can.Data Descriptor.Types Descriptor.Physical Gen.Message Gen.History Gen.HistoryPhys Gen.Api.
 Import ListNotations.
 Import ListNotations.
 Open Scope Z_scope.
@@ -93,6 +93,7 @@ Inductive getter_body :=
 Record ngetter := { gt_method : name; gt_field : name; gt_result : name; gt_body : getter_body }.
 
 Record wiring := {
+  w_name : name;                        (* the message type's Go name *)
   w_fields : list (name * name);        (* struct declaration: field name, type name, in order *)
   w_types : list (name * name);         (* type T U declarations of the file *)
   w_msg_index : Z;                      (* Message: d.Messages[mi] of the md literal *)
@@ -588,3 +589,127 @@ Definition wiring_getter_phys (m : message) (w : wiring) (g : ngetter) (st : sta
 (** C10 part: declarations, Reset(), CopyFrom()/MarshalFrame() shapes (over the C03 part), setters, getters *)
 Definition wiring_ok_c10 (mi : nat) (m : message) (w : wiring) : bool :=
   decls_ok mi m w && reset_wiring_ok m w && w_copy w && setters_wiring_ok m w && getters_wiring_ok m w.
+
+(** ---- the whole generated package: one wiring per message type (in source order), the `nd` literal
+    (<Node>: d.Nodes[ni]) and the dispatcher's cases *)
+Record enum := {
+  e_name : name; e_under : name;           (* type <e_name> <e_under> *)
+  e_consts : list (name * rconst);         (* const ( <name> <e_name> = <value> ... ) *)
+  e_on_bool : bool;                        (* String(): switch bool(v) {...}; return Sprintf  |  switch v {... default: return Sprintf} *)
+  e_cases : list (rconst * name);          (* case <value>: return "<text>" *)
+  e_default : name }.                      (* format string of fmt.Sprintf(<fmt>, v) *)
+
+Record package := {
+  p_enums : list enum;
+  p_wirings : list wiring;
+  p_nodes : list (name * Z);
+  p_dispatch : list (option name) }.   (* MessagesDescriptor.UnmarshalFrame: case md.<Msg>.ID (Some Msg) ... default (None) *)
+
+(** the wiring of the message type named [n]: there must be EXACTLY one *)
+Definition find_wiring (n : name) (ws : list wiring) : option wiring :=
+  match filter (fun w => name_eqb (w_name w) n) ws with [w] => Some w | _ => None end.
+Fixpoint messages_ok (ok : nat -> message -> wiring -> bool) (ws : list wiring) (ms : list message) (k : nat) : bool :=
+  match ms with
+  | [] => true
+  | m :: tl => match find_wiring (msg_name m) ws with Some w => ok k m w | None => false end && messages_ok ok ws tl (S k)
+  end.
+Fixpoint nodes_ok (ns : list node) (k : Z) (l : list (name * Z)) : bool :=
+  match ns, l with
+  | [], [] => true
+  | n :: ns', (nm, i) :: l' => name_eqb nm (node_name n) && (i =? k) && nodes_ok ns' (k + 1) l'
+  | _, _ => false
+  end.
+(** no message type without a message of the database *)
+Definition no_extra_types (db : database) (ws : list wiring) : bool :=
+  forallb (fun w => existsb (fun m => name_eqb (w_name w) (msg_name m)) (db_messages db)) ws.
+Definition package_wiring_ok_c03 (db : database) (p : package) : bool :=
+  messages_ok wiring_ok_c03 (p_wirings p) (db_messages db) 0 && no_extra_types db (p_wirings p) &&
+  nodes_ok (db_nodes db) 0 (p_nodes p).
+Definition package_wiring_ok_c10 (db : database) (p : package) : bool :=
+  messages_ok wiring_ok_c10 (p_wirings p) (db_messages db) 0 && no_extra_types db (p_wirings p).
+Definition package_wiring_ok (db : database) (p : package) : bool :=
+  package_wiring_ok_c03 db p && package_wiring_ok_c10 db p.
+
+(** ---- the dispatcher MessagesDescriptor.UnmarshalFrame:
+      switch f.ID { case md.<Msg>.ID: var msg <Msg>; if err := msg.UnmarshalFrame(f); err != nil { return nil, ... }; return &msg, nil
+                    ... default: return nil, ... }
+    first case whose value equals f.ID; md.<Msg> is the md literal entry of that message type (Message: d.Messages[mi]);
+    `var msg <Msg>` is the zero value of the struct. [Some None] = the dispatcher returns an error without a message. *)
+Definition zero_state (w : wiring) : state := map (fun _ => 0) (w_fields w).
+Fixpoint run_dispatch (db : database) (ws : list wiring) (f : frame) (cases : list (option name))
+  : option (option (message * (reject + state))) :=
+  match cases with
+  | [] => None                       (* no default clause: outside the fragment *)
+  | None :: _ => Some None
+  | Some n :: tl =>
+      match find_wiring n ws with
+      | Some w =>
+          match nth_error (db_messages db) (Z.to_nat (w_msg_index w)) with
+          | Some m =>
+              if msg_id m =? fr_id f then
+                match wiring_unmarshal m w f (zero_state w) with
+                | Some (inl (r, _)) => Some (Some (m, inl r))
+                | Some (inr st) => Some (Some (m, inr st))
+                | None => None
+                end
+              else run_dispatch db ws f tl
+          | None => None
+          end
+      | None => None
+      end
+  end.
+Definition wiring_dispatch (db : database) (p : package) (f : frame) := run_dispatch db (p_wirings p) f (p_dispatch p).
+(** one case per message of the database, in database order, then the default *)
+Definition dispatch_ok (db : database) (p : package) : bool :=
+  list_eqb (opt_eqb name_eqb) (p_dispatch p) (map (fun m => Some (msg_name m)) (db_messages db) ++ [None]).
+
+(** ---- enum types of signals with value descriptions (SignalCustomType) *)
+Definition case_matches (c : rconst) (v : Z) : bool :=
+  match c with RBool b => Bool.eqb b (negb (v =? 0)) | RInt n => n =? v end.
+(** fmt.Sprintf(fmt, v) for a format with one verb %d (decimal) or %t (true/false); other text is copied *)
+Fixpoint sprintf_one (fmt : name) (v : Z) : option name :=
+  match fmt with
+  | [] => Some []
+  | c :: tl =>
+      if c =? 37 then
+        match tl with
+        | k :: tl' => if k =? 100 then Some (itoa v ++ tl')
+                      else if k =? 116 then Some (bool_text (negb (v =? 0)) ++ tl')
+                      else None
+        | [] => None
+        end
+      else match sprintf_one tl v with Some r => Some (c :: r) | None => None end
+  end.
+(** String(): the first case whose value equals v returns its text; otherwise the Sprintf form *)
+Definition enum_string (e : enum) (v : Z) : option name :=
+  match find (fun c => case_matches (fst c) v) (e_cases e) with
+  | Some c => Some (snd c)
+  | None => sprintf_one (e_default e) v
+  end.
+
+Definition fmt_d : name := Eval compute in Ast.bytes_of_string "(%d)"%string.
+Definition fmt_t : name := Eval compute in Ast.bytes_of_string "(%t)"%string.
+Definition rconst_of_val (c : const_val) : rconst := match c with CBool b => RBool b | CInt z => RInt z end.
+Definition case_of (s : signal) (vd : value_description) : rconst :=
+  if s_length s =? 1 then RBool (vdesc_value vd =? 1) else RInt (vdesc_value vd).
+Definition enum_ok_for (m : message) (s : signal) (e : enum) : bool :=
+  let t := enum_type_name m s in
+  name_eqb (e_name e) t && forallb (fun c => negb (c =? 37)) t &&
+  opt_eqb ctype_eqb (assoc (e_under e) builtin_types) (Some (CT (signal_prim_type s))) &&
+  list_eqb (fun a b => name_eqb (fst a) (fst b) && rconst_eqb (snd a) (snd b)) (e_consts e)
+    (map (fun vd => (t ++ k_us ++ slugify (vdesc_text vd), rconst_of_val (enum_const_val s vd))) (s_value_descriptions s)) &&
+  Bool.eqb (e_on_bool e) (s_length s =? 1) &&
+  list_eqb (fun a b => rconst_eqb (fst a) (fst b) && name_eqb (snd a) (snd b)) (e_cases e)
+    (map (fun vd => (case_of s vd, vdesc_text vd)) (s_value_descriptions s)) &&
+  name_eqb (e_default e) (t ++ (if s_length s =? 1 then fmt_t else fmt_d)).
+Definition find_enum (n : name) (es : list enum) : option enum :=
+  match filter (fun e => name_eqb (e_name e) n) es with [e] => Some e | _ => None end.
+Definition signal_enum_ok (es : list enum) (m : message) (s : signal) : bool :=
+  if has_custom_type s then
+    match find_enum (enum_type_name m s) es with Some e => enum_ok_for m s e | None => false end
+  else true.
+(** every signal with value descriptions has exactly one enum type of its name, as demanded; no other enum types *)
+Definition enums_ok (db : database) (p : package) : bool :=
+  forallb (fun m => forallb (signal_enum_ok (p_enums p) m) (msg_signals m)) (db_messages db) &&
+  forallb (fun e => existsb (fun m => existsb (fun s => has_custom_type s && name_eqb (e_name e) (enum_type_name m s))
+                                              (msg_signals m)) (db_messages db)) (p_enums p).
